@@ -81,8 +81,8 @@ Inductive event : Type :=
    buffers[0 .. depth-1] is kept as a stack (head = buffers[depth-1]); entries at and above
    [depth] are never read by the C code (exception_try writes buffers[depth-1] after depth++,
    Exception_Buffer reads buffers[depth-1]), so the stack is the whole observable content and
-   [depth] is its length.  A jump buffer is named by the depth at which its try frame was
-   entered (= its position on the C stack among the live try frames). *)
+   [depth] is its length.  A jump buffer is named by 1 + the depth at which its try frame was
+   entered (= its position on the C stack among the live try frames; 0 is the NULL pointer). *)
 Record mstate : Type := MS {
   obj : option nat;       (* NULL before the first throw *)
   msg : nat;
@@ -213,7 +213,7 @@ Fixpoint mrun (p : prog) (st : mstate) : list event * mout * mstate :=
   | PExit k => ([], MExit k, st)
   | PCall p => let '(t, r, s) := mrun p st in (t, fn_end r, s)
   | PTry b fs h =>
-      let id := depth st in                              (* jmp_buf __env; *)
+      let id := S (depth st) in                          (* jmp_buf __env;  (its address: never NULL = 0) *)
       match exception_try id st with                     (* exception_try(&__env); *)
       | None => ([], MAbort, st)
       | Some s0 =>
